@@ -70,6 +70,9 @@ func (tm *TypeMap) keyName(t types.Type) string {
 	if _, ok := t.Underlying().(*types.Struct); ok {
 		return tm.structName(t)[2:]
 	}
+	if b, ok := t.(*types.Basic); ok && b.Kind() != types.Invalid && int(b.Kind()) < len(types.Typ) {
+		return types.Typ[b.Kind()].Name() // byte -> uint8, rune -> int32
+	}
 	return sanitize(typeName(t))
 }
 
